@@ -257,14 +257,14 @@ func (e *Engine) setPtrMeta(v *Val) {
 	if !ok {
 		return
 	}
+	// pointers held in variables, fields and results point at whole objects (interior pointers
+	// exist only as temporaries and are never stored), so the element offset is 0
+	if len(v.C) == 2 && v.Path == "" && v.Cell == nil {
+		v.C = []*smt.Term{v.C[0], e.X.Const(0, 64)}
+	}
 	switch el := p.Elem().Underlying().(type) {
 	case *types.Array:
 		v.Root, v.RootT = RootArr, typeKey(el.Elem())
-		// pointers to arrays point at whole arrays: the library never converts a slice to an
-		// array pointer (checked by scan for SliceToArrayPointer), so the element offset is 0
-		if len(v.C) == 2 && v.Path == "" {
-			v.C = []*smt.Term{v.C[0], e.X.Const(0, 64)}
-		}
 	default:
 		v.Root, v.RootT = RootObj, typeKey(p.Elem())
 	}
